@@ -12,6 +12,8 @@ fn main() {
         "c15_find_node" => c15_find_node(&mut nd),
         "c04_identity_receive" => c04_identity_receive(&mut nd),
         "c01_identity_binding" => c01_identity_binding(&mut nd),
+        "c07_closed_report" => c07_closed_report(&mut nd),
+        "c08_service_events" => c08_service_events(&mut nd),
         "c13_inbound_bound" => c13_inbound_bound(&mut nd),
         "c13_request_ledger" => c13_request_ledger(&mut nd),
         "c03_stream_negotiation" => c03_stream_negotiation(&mut nd),
